@@ -177,6 +177,9 @@ pub fn lanes_for(prop: &str, tier: &str, seed: u64) -> Vec<Scenario> {
             v.extend(gen_cli::lane_cli_report_bytes(seed));
             v.extend(gen_cli::lane_pairing(seed));
             v.extend(gen_cli::lane_script_partial(seed));
+            // megabytes in several read rounds, then a limit that expires: what was captured is
+            // the beginning of what was written
+            v.extend(gen_cli::lane_flood(seed).into_iter().filter(|s| s.check.iter().any(|c| c == "C13")));
             v.extend(gen_cli::lane_cli_fates(seed, if thorough { 1 } else { 6 }));
             v.extend(gen_cli::lane_cram_sizes(seed));
             v.extend(gen_cli::lane_random(Tier::Cli, seed, n_rand_cli, "C13"));
